@@ -9,7 +9,7 @@ class P:
     rule = ("PARSE of programs whose intended tree is known: random trees over all built-in infix/prefix/postfix operators, "
             "`not OP`, conditionals, calls, lists, maps, rendered (a) with only the parentheses the documented precedence / "
             "associativity rules require (an executable spec written from the property text) and (b) with random redundant "
-            "ones; all ordered pairs of infix operators x {plain, not} x 3 operand shapes (exhaustive); the impl's AST is compared "
+            "ones; all ordered pairs of infix operators x {plain, not} x 3 operand shapes (exhaustive); all triples of level representatives x `not` masks x the five groupings of three operators; the impl's AST is compared "
             "with the intended tree (oracle) and with the model. Non-trivial = distinct program with at least one operator.")
     assumptions = ["the README table plus `in` (200, documented in the property text) is the documented table; Gen/DocTable.v is regenerated from README.md on every run"]
     trusted_extra = ["vlib/props/progs.py must_paren/render_min: the documented grouping rules as an executable oracle"]
@@ -52,6 +52,20 @@ class P:
                     for wrap in (lambda e: ("list", [e]), lambda e: ("call", "f", [A, e]), lambda e: e):
                         items.append(("bin", "&&", A, ("nbin", o1, B, wrap(inner))))
                         if tier != "quick" or o1 < o2: items.append(("bin", "||", ("nbin", o1, B, wrap(inner2)), A))
+        # three operators in one flat run, one representative per level, `not` before any of them, all five groupings: the
+        # negated operator may be met first by an inner level that hands it back (`1 + 2 * 3 not == 7`)
+        D = ("ref", "d")
+        masks = [(0, 0, 1), (0, 1, 0), (1, 0, 0), (1, 1, 1)] if tier == "quick" else [(i, j, k) for i in (0, 1) for j in (0, 1) for k in (0, 1)]
+        for o1 in reps:
+            for o2 in reps:
+                for o3 in reps:
+                    for m in masks:
+                        k1, k2, k3 = [("nbin" if x else "bin") for x in m]
+                        items.append((k3, o3, (k2, o2, (k1, o1, A, B), C), D))
+                        items.append((k3, o3, (k1, o1, A, (k2, o2, B, C)), D))
+                        items.append((k1, o1, A, (k3, o3, (k2, o2, B, C), D)))
+                        items.append((k1, o1, A, (k2, o2, B, (k3, o3, C, D))))
+                        items.append((k2, o2, (k1, o1, A, B), (k3, o3, C, D)))
         fixed = [(("PARSE:" + hx(progs.render_min(t, PT))), ("tree", progs.to_proto(t))) for t in items]
         # the same trees with one redundant pair of parentheses around every operand
         fixed += [(("PARSE:" + hx(progs.render_min(t, PT, rng, 1.0))), ("tree", progs.to_proto(t))) for t in items[:: (5 if tier == "quick" else 1)]]
